@@ -14,9 +14,9 @@ git apply /tmp/seed/$id.patch
 echo "demo with change: exit $w ; without change: exit $wo"
 for p in "$@"; do
   # existing tests only: exclude the demo
-  go test -vet=off -count=1 $p 2>&1 | grep -E "^(--- FAIL|FAIL|ok)" | grep -v -i "seed" | sort > /tmp/seed/$id.t.with
+  go test -vet=off -count=1 -skip "$re" $p 2>&1 | grep -E "^(--- FAIL|FAIL|ok)" | grep -v -i "seed" | sort > /tmp/seed/$id.t.with
   git apply -R /tmp/seed/$id.patch
-  go test -vet=off -count=1 $p 2>&1 | grep -E "^(--- FAIL|FAIL|ok)" | grep -v -i "seed" | sort > /tmp/seed/$id.t.without
+  go test -vet=off -count=1 -skip "$re" $p 2>&1 | grep -E "^(--- FAIL|FAIL|ok)" | grep -v -i "seed" | sort > /tmp/seed/$id.t.without
   git apply /tmp/seed/$id.patch
-  if diff <(sed 's/[0-9.]*s$//' /tmp/seed/$id.t.with) <(sed 's/[0-9.]*s$//' /tmp/seed/$id.t.without) > /dev/null; then echo "existing tests $p: same result with and without"; else echo "existing tests $p: DIFFER"; diff /tmp/seed/$id.t.with /tmp/seed/$id.t.without | head; fi
+  if diff <(sed -E 's/[(]?[0-9.]+s[)]?$//' /tmp/seed/$id.t.with) <(sed -E 's/[(]?[0-9.]+s[)]?$//' /tmp/seed/$id.t.without) > /dev/null; then echo "existing tests $p: same result with and without"; else echo "existing tests $p: DIFFER"; diff /tmp/seed/$id.t.with /tmp/seed/$id.t.without | head; fi
 done
